@@ -130,12 +130,17 @@ pub fn parallel_parse(
             });
             match result {
                 Ok(Some(parsed_data)) => {
-                    tx.send(Ok(parsed_data)).unwrap();
+                    // The collector stops receiving after the first error: a closed
+                    // channel means the walk is over, not that something went wrong here.
+                    if tx.send(Ok(parsed_data)).is_err() {
+                        return WalkState::Quit;
+                    }
                     WalkState::Continue
                 }
                 Ok(None) => WalkState::Continue,
                 Err(err) => {
-                    tx.send(Err(err)).unwrap();
+                    // If the collector is already gone it has reported an earlier error.
+                    let _ = tx.send(Err(err));
                     WalkState::Quit
                 }
             }
